@@ -1193,6 +1193,10 @@ func gen(r *vgen.Rng, tier string) []Case {
 		// a member leaves (Leaver: and stays online with its old share, answering "ready" first)
 		{Kind: "scenario", Proto: "ecdsa", Start: "fixtures", Reshares: []Reshare{{Members: []int{0, 2}, T: 1}}, SignAt: []int{1}, Seed: seed, Overlap: true, Leaver: true},
 		{Kind: "scenario", Proto: "frost", Start: "fixtures", Reshares: []Reshare{{Members: []int{0, 2}, T: 1}}, SignAt: []int{1}, Seed: seed, Overlap: true, Leaver: true},
+		// as many relayers join as leave (one leaves, one joins: old and new committee have the same SIZE
+		// but are different sets), through the real StartParams / validateStartParams: the announced old
+		// subset must not contain the leaver; every pair of the new committee signs
+		{Kind: "scenario", Proto: "ecdsa", Start: "fixtures", Reshares: []Reshare{{Members: []int{0, 1, 3}, T: 1}}, SignAt: []int{1}, Seed: seed, Leaver: true},
 		// threshold raised (ECDSA: together with a join and a leave)
 		{Kind: "scenario", Proto: "ecdsa", Start: "fixtures", Reshares: []Reshare{{Members: []int{0, 1, 3, 4}, T: 2}}, SignAt: []int{1}, Seed: seed, Leaver: true, Offline: true,
 			Modes:  []Mode{{}, {Chan: "unbuf", Reader: "late"}, {}, {Chan: "unbuf", Reader: "evm"}},
